@@ -307,3 +307,20 @@ Proof.
   destruct (wstep_prefix c s t w aux s' (invB_reachable c progs s Hr) Hw Hpc Hs) as (s2 & E & H2 & _).
   exists s2. split; assumption.
 Qed.
+
+(* ---- uv_stop from the callbacks of a batch does not lose the rest of the batch ---- *)
+Definition cfg3 : config :=
+  mkCfg 1 1 (fun r => match r with 0 => [OStop] | 1 => [OStop] | _ => [] end).
+Definition prog3 : list (list op) := [[OSubmit KCpu; OSubmit KCpu]].
+Definition sched3 : list (nat * nat) :=
+  [(0,0);(0,0);(1,0);(1,0);(1,0);(1,0);(0,0);(0,0);(1,0);(0,0);(0,0)].
+
+Example run3_stop_in_batch :
+  let s := run cfg3 (init cfg3 prog3) sched3 in
+  verdict cfg3 s = 0%Z /\
+  map (fun r => ndone r (trace s)) [0; 1] = [1; 1] /\
+  (forall t, t < 2 -> step cfg3 s t 0 = None).
+Proof.
+  cbv zeta. split; [vm_compute; reflexivity|]. split; [vm_compute; reflexivity|].
+  intros t Ht. destruct t as [|[|t]]; try lia; vm_compute; reflexivity.
+Qed.
